@@ -73,7 +73,76 @@ def comb_tree(rng):
     return t
 
 
+def _unit(rng, levels, pages, lead):
+    """one subtree that is LEFT through a last kid: a node whose LAST kid is an intermediate node, `levels` times over
+    (levels = 1: group -> subgroup -> pages); `lead` pages come before the intermediate kid on every level"""
+    leaf = ('leaf',)
+    t = ('node', [leaf for _ in range(max(1, rng.randint(*pages)))])
+    for _ in range(levels):
+        t = ('node', [leaf for _ in range(rng.randint(*lead))] + [t])
+    return t
+
+
+def fan_tree(rng, style=None):
+    """WIDE multi-level trees, 2..5 levels: several hundred intermediate nodes that are the last kid of their parent while
+    their parent has further siblings.  The iterator does not push an exhausted sibling list, so it leaves each such
+    subtree by ONE pop that climbs two or more levels -- any bookkeeping of the depth that is not the stack itself has to
+    survive a few hundred of these (260..600 here, which is on both sides of PAGE_TREE_DEPTH_LIMIT)."""
+    leaf = ('leaf',)
+    style = style or rng.choice(['chains', 'chains', 'balanced', 'grid', 'grid', 'mixed', 'mixed', 'deepchains', 'deepchains'])
+    if style == 'chains':
+        # K side-by-side chains group -> subgroup (-> subsubgroup) -> page
+        k = rng.choice([LIMIT + 4, LIMIT + 44, 300, 400, 600])
+        lv = rng.choice([1, 1, 2, 3])
+        t = ('node', [_unit(rng, lv, (1, 1), (0, 0)) for _ in range(k)])
+    elif style == 'balanced':
+        # root -> K chapters -> s sections -> p pages
+        k, s, p = rng.choice([(LIMIT + 4, 2, 2), (300, 2, 2), (300, 3, 1), (280, 1, 3), (400, 2, 1)])
+        t = ('node', [('node', [('node', [leaf] * p) for _ in range(s)]) for _ in range(k)])
+    elif style == 'grid':
+        # root -> a parts -> b chapters -> .. -> pages: the same few hundred subtrees under a root of small fan-out
+        a = rng.choice([4, 9, 17, 20, 30])
+        k = rng.choice([LIMIT + 4, 300, 450, 600])
+        b = -(-k // a)
+        lv = rng.choice([1, 1, 2])
+        t = ('node', [('node', [_unit(rng, lv, (1, 2), (0, 1)) for _ in range(b)] + ([leaf] if rng.random() < 0.5 else []))
+                      for _ in range(a)])
+    elif style == 'mixed':
+        # chapters of 1..3 further levels with pages before the section on every level, pages between the chapters
+        k = rng.choice([LIMIT + 10, 320, 500])
+        kids = []
+        for _ in range(k):
+            kids.append(_unit(rng, rng.choice([1, 1, 2, 3]), (0, 3), (0, 2)))
+            if rng.random() < 0.2:
+                kids.append(leaf)
+        t = ('node', kids)
+    else:
+        # a few DEEP chains side by side: m chains of d nodes, one page at the bottom of each
+        d = rng.choice([9, 17, 33, 60, 120])
+        m = (LIMIT + rng.choice([8, 40, 300])) // (d - 1) + 2
+        t = ('node', [_unit(rng, d - 1, (1, 2), (0, 0)) for _ in range(m)] + [leaf])
+    return t
+
+
+def last_kid_nodes(t):
+    """number of intermediate nodes that are the last kid of their parent and are followed, later in the walk, by another
+    node (i.e. not on the rightmost path): how many times the iterator climbs two or more levels by one pop"""
+    def go(t, rightmost):
+        if t[0] == 'leaf':
+            return 0
+        n = 0
+        for i, k in enumerate(t[1]):
+            last = i == len(t[1]) - 1
+            if k[0] == 'node' and last and not rightmost:
+                n += 1
+            n += go(k, rightmost and last)
+        return n
+    return go(t, True)
+
+
 def make_tree(rng, shape):
+    if shape == 'fan':
+        return fan_tree(rng)
     if shape == 'random':
         return build_tree(rng, rng.randint(1, 6), rng.randint(1, 5), 0.15)
     if shape == 'chain':
@@ -258,6 +327,18 @@ def gen_cases(rng, tier):
         else:
             doc, dmg = gen_malformed(rng)
             cases.append((L('case', doc, L('malformed')), {'kind': 'mal-' + dmg, 'nontrivial': True}))
+    # wide multi-level trees (a few thousand objects each; generated after the others so that those stay as they were)
+    for k in range(14 if tier == 'quick' else 160):
+        bare = rng.random() < 0.6
+        exact = rng.random() < 0.5
+        while True:
+            doc, leaves, wf, t = gen_wf(rng, 'fan', bare, exact)
+            if count_nodes(t) <= (2400 if tier == 'quick' else 6000):   # the extracted model takes 5-10 s on 2400 nodes
+                break
+        flags = L('flags', *(['exact-counts'] if exact else []))
+        cases.append((L('case', doc, L('leaves', *[OID(*l) for l in leaves]), flags),
+                      {'kind': 'wf-fan' + ('-bare' if bare else ''), 'nontrivial': True,
+                       'last_kid_nodes': last_kid_nodes(t), 'pages': len(leaves), 'nodes': count_nodes(t), 'height': height(t)}))
     # smallest documents first: the first failing case that is reported is then the smallest one found
     cases.sort(key=lambda c: len(c[0]))
     return cases
@@ -275,7 +356,11 @@ SPEC = {
             'ill-typed; about half of the sections/comb documents are bare: |objects| = tree nodes + catalog + 0..3, no indirection '
             'objects, i.e. least slack of iter_limit) and 13 kinds of damage '
             '(cycles, duplicates, ill-typed kids, missing/ill-typed Type, dangling, Kids not an array, Root/Pages broken, '
-            'Linearized fallback, reference loops); every case also steps the iterator by hand recording size_hint before and '
+            'Linearized fallback, reference loops); plus 14 (quick) / 160 (thorough) WIDE multi-level trees (fan: 260..600 side-by-side '
+            'chains group -> subgroup -> page, balanced root -> 260..400 chapters -> sections -> pages, the same under a root of small '
+            'fan-out, mixed chapters of 1..3 further levels, a few chains of 9..120 nodes side by side; up to 2400 / 6000 tree nodes): '
+            'several hundred intermediate nodes that are the last kid of their parent, so the iterator climbs two or more levels by one pop '
+            'hundreds of times; every case also steps the iterator by hand recording size_hint before and '
             'after every page (compared with the model; upper bound and count-down checked directly), nth(k)/get_pages()[k+1], and '
             'delete_pages of the middle page on every proper tree; non-trivial = at least 2 leaves or malformed; distinct = distinct case text',
     'extra_trusted': ['C12: model of PageTreeIter merges stack pops into pop_nonempty (justified in Model/PageTree.v header)'],
